@@ -59,11 +59,23 @@ def rule_a(rep: Report, idx: SourceIndex) -> None:
 	r.check(parts == ['{entry_tag}', '[', '{index}', ']'], 'writer-format', ident.where, f'EntryPath.identify writes {parts}; readers expect tag[index]')
 	bt = pm.func('EntryPath.__break_tag')
 	btx = closure(bt)
+	# the reader inverts the writer: evaluated on representatives of the two forms identify() writes (`tag`, `tag[<position>]` with one, two and three
+	# digits) by the evaluator of vlib/dsneval.py; whatever it cannot evaluate falls back to the shape test below
+	from vlib import dsneval
+	reps_ = {'tag': ['tag', -1], 'tag[0]': ['tag', 0], 'tag[3]': ['tag', 3], 'tag[12]': ['tag', 12], 'tag[120]': ['tag', 120]}
+	got_ = {t: dsneval.call_function(pm.cls('EntryPath'), '__break_tag', [t], {}, 0) for t in reps_}
+	evaluated = all(v is not dsneval.UNKNOWN for v in got_.values())
+	if evaluated:
+		for t, want in reps_.items():
+			g_ = list(got_[t]) if isinstance(got_[t], (list, tuple)) else got_[t]
+			r.check(g_ == want, f'reader-break-tag:{t}', bt.where, f'EntryPath.__break_tag reads the path element `{t}` as {g_}; EntryPath.identify wrote it for (tag, position) = {tuple(want)}: an indexed element with a position of two or more digits is looked up at another child — pluck / exists / find return a different existing entry (a block with more than ten statements), silently', f'{t} -> {g_}')
 	closes = [c for c in calls(btx, 'endswith') if c.args and const_str(c.args[0]) == ']']
 	opens = [c for c in calls(btx, ('split', 'partition', 'rpartition', 'index', 'find', 'rfind', 'rsplit')) if c.args and const_str(c.args[0]) == '[']
 	ints = calls(btx, 'int')
 	plain = [n for n in nodes(btx, ast.Tuple) if len(n.elts) == 2 and isinstance(n.elts[1], (ast.Constant, ast.UnaryOp)) and isinstance(n.ctx, ast.Load)]
-	if closes and opens and ints and plain:
+	if evaluated:
+		pass
+	elif closes and opens and ints and plain:
 		r.check(all(unparse(n.elts[1]) == '-1' for n in plain), 'reader-break-tag', bt.where, f'__break_tag must yield index -1 for a plain tag (the readers test `index != -1`): returns {[unparse(n) for n in plain]}', unparse(plain[0]))
 		for c in ints:
 			inner = unparse(c.args[0]) if c.args else ''
